@@ -116,6 +116,7 @@ type ilvGen struct {
 	kind       map[string]string
 	needConst  bool
 	needStdlib bool
+	hasMty     bool
 	keepN      int
 	kept       []string
 }
@@ -319,6 +320,15 @@ func (g *ilvGen) litProbe(name string) *Node {
 	return Call("sim:probe", QS("lit:"+name), Call(name))
 }
 
+var nearMissForms = []string{
+	"(let ((zx)) zx)", "(let* ((zx)) zx)", "(let (zx) zx)", "(let ((zx 1 2)) zx)", "(let* ((zx 1) (zy)) zy)", "(let ((zx 1) zy) zy)", "(let ())", "(let* () 1)",
+	"(flet ((zf)) 1)", "(flet ((zf ())) (zf))", "(labels ((zf ())) (zf))", "(labels ((zf)) 1)", "(cond (true))", "(cond)", "(cond ((= 1 2) 1))", "(if true)", "(if true 1)",
+	"(dotimes (zi) 1)", "(dotimes (zi 2 zi zi) 1)", "(dotimes ((zi 1)) 1)", "(lambda)", "(lambda zx)", "((lambda (&rest) 1))", "((lambda (&optional) 1))",
+	"(handler-bind ((condition)) 1)", "(handler-bind (()) 1)", "(handler-bind () 1)", "(defun zg)", "(defmacro zm)", "(quote)", "(quote 1 2)", "(quasiquote)",
+	"(assert)", "(progn)", "(or)", "(and)", "(thread-first 1 ())", "(thread-last 1 (list))", "(set 'zq)", "(function)", "(expr)", "(expr 1 2)", "(ignore-errors)",
+	"(macrolet ((zm)) 1)", "(macrolet () 1)", "(in-package)", "(export)", "(use-package)", "(funcall)", "(apply +)", "(curry-function)", "(get-default (sorted-map))",
+}
+
 func (ilvEngine) Gen(r *Rand, tier string) any {
 	g := &ilvGen{r: r, kind: map[string]string{}}
 	c := &IlvCase{}
@@ -336,7 +346,32 @@ func (ilvEngine) Gen(r *Rand, tier string) any {
 	}
 	n := r.Range(3, 9)
 	for i := 0; i < n; i++ {
-		switch r.Pick([]int{10, 3, 2, 2, 2, 2, 1, 1}) {
+		switch r.Pick([]int{10, 3, 2, 2, 2, 2, 1, 1, 2, 2}) {
+		case 9:
+			// values the interpreter hands out for type names and in
+			// argument-type errors, also through a macro expansion (which is
+			// evaluated and source-stamped by the runtime that expands it)
+			arg := PickStr(r, []string{"1", "\"s\"", "'a", "(vector)", "(sorted-map)", "1.5", "(lambda () 1)", "()", "(to-bytes \"a\")", "'(1)", "(list 1)", "(type 1)"})
+			switch r.Intn(4) {
+			case 0:
+				body = append(body, A(fmt.Sprintf("(sim:probe 'ty (type %s))", arg)))
+			case 1:
+				if !g.hasMty {
+					g.hasMty = true
+					g.defs = append(g.defs, A("(defmacro mty (x) (type x))"), A("(defmacro mtyq (x) (list 'quote (list (type x) (type x))))"))
+				}
+				body = append(body, A(fmt.Sprintf("(sim:probe 'tym (list (mty %s) (mtyq %s)))", arg, arg)))
+			case 2:
+				body = append(body, A(fmt.Sprintf("(sim:probe 'tye (handler-bind ((condition (lambda (c &rest zd) (list c zd)))) (+ 1 %s)))", arg)))
+			default:
+				body = append(body, A(fmt.Sprintf("(sim:probe 'tyl (let ((zt (type %s))) (list zt (symbol? zt) (equal? zt (type %s)))))", arg, arg)))
+			}
+		case 8:
+			// abbreviated, incomplete or over-full special-form syntax: whatever
+			// the operator makes of it (usually an error), it may not
+			// complete or repair the parsed program in place
+			bad := PickStr(r, nearMissForms)
+			body = append(body, A(fmt.Sprintf("(sim:probe 'nm (handler-bind ((condition (lambda (c &rest zd) c))) %s))", bad)))
 		case 0:
 			body = append(body, g.probe("m", g.mutate()))
 		case 1:
